@@ -258,9 +258,11 @@ void ThreadPool::cleanup()
             }
         );
         d_->threads_cabinet.clear();
+
+        //! 必须在锁内置位，否则工作线程可能在检查完条件、进入等待之前错过通知而永远等待
+        d_->all_threads_stop_flag = true;
     }
 
-    d_->all_threads_stop_flag = true;
     d_->cond_var.notify_all();
 
     //! 等待所有的线程退出
